@@ -38,19 +38,58 @@ def make_params(seed, tier):
     return {'seed': seed, 'mode': ['none', 'sched', 'lossy'][seed % 3]}
 
 
+def task_sections(model, t):
+    """Sections (recurrences) on which task t is placed."""
+    out = []
+    for s in model.prog.sections:
+        on = False
+        for expr, targets in s.lines:
+            if t in targets:
+                on = True
+            elif expr is not None and any(
+                    a.task == t and a.kind == 'rel' and a.off == 0
+                    for a in atoms(expr)):
+                on = True
+        if on:
+            out.append(s)
+    return out
+
+
+def npp_shipped(model, t, p):
+    """The next parentless point after p as the shipped
+    TaskDef.next_point_parentless computes it: for each recurrence of the
+    task take the *immediately* next point, keep those that are parentless,
+    return the earliest (None if there is none)."""
+    cands = []
+    for s in task_sections(model, t):
+        nxt = [q for q in s.points if q > p and model.prog.icp <= q <= model.prog.fcp]
+        if nxt and model.parentless(t, nxt[0]):
+            cands.append(nxt[0])
+    return min(cands) if cands else None
+
+
 def chain_break(model, inst, launched):
-    """Known-finding predicate: a parentless instance whose auto-spawn chain
-    was broken at an earlier *parented* instance that never spawned."""
+    """Known-finding predicate (C01-F1): a parentless instance that the
+    shipped auto-spawn chain cannot reach: an earlier *parented* instance
+    never spawned, and no instance of the task that did run has this
+    instance as its next parentless point (computed as the shipped code
+    does, recurrence by recurrence)."""
     t, p = inst
     if not model.parentless(t, p):
         return False
+    broken = False
     for q in sorted(model._valid[t]):
         if q >= p:
             break
         if q >= model.start and not model.parentless(t, q) and (
                 (t, q) not in launched):
-            return True
-    return False
+            broken = True
+    if not broken:
+        return False
+    for (t2, q) in launched:
+        if t2 == t and q < p and npp_shipped(model, t, q) == p:
+            return False        # the shipped chain does reach it
+    return True
 
 
 def explain_missing(model, missing, launched):
